@@ -24,6 +24,7 @@ MemReqs(vm, o, env) ==
     [] o = "MSTOREW" -> <<MemReq(vm, a0, 0, <<s[5], s[4], s[3], s[2]>>)>>
     [] o = "MSTORE" -> LET w == MRead(vm, a0) IN <<MemReq(vm, a0, 0, <<s[2], w[2], w[3], w[4]>>)>>
     [] o = "MSTREAM" -> LET a == s[13] IN <<MemReq(vm, a, 1, MRead(vm, a)), MemReq(vm, FAdd(a, F1), 1, MRead(vm, FAdd(a, F1)))>>
+    [] o = "RCOMBBASE" -> <<MemReq(vm, s[14], 1, MRead(vm, s[14])), MemReq(vm, s[15], 1, MRead(vm, s[15]))>>
     [] o = "PIPE" -> LET a == s[13]  n == env.next IN
                      <<MemReq(vm, a, 0, <<n[8], n[7], n[6], n[5]>>), MemReq(vm, FAdd(a, F1), 0, <<n[4], n[3], n[2], n[1]>>)>>
     [] OTHER -> <<>>
